@@ -154,4 +154,8 @@ Example repaired_witnesses_clean :
   clean current_cfg w_delitem empty_heap /\ clean current_cfg w_imul empty_heap /\ clean current_cfg w_extend empty_heap /\
   clean current_cfg w_insert empty_heap /\ clean current_cfg w_setitem empty_heap /\ clean current_cfg w_initset empty_heap /\
   clean current_cfg w_gextend empty_heap /\ clean current_cfg w_ginsert empty_heap /\ clean current_cfg w_nodeouts_dup empty_heap.
-Proof. repeat split; vm_compute; reflexivity. Qed.
+Proof.
+  repeat (match goal with |- _ /\ _ => split end);
+    cbv [w_delitem w_imul w_pre w_extend w_insert w_setitem w_initset w_gpre w_gextend w_ginsert w_nodeouts_dup app];
+    cbn [clean]; repeat (split; [vm_compute; reflexivity|]); exact I.
+Qed.
